@@ -107,16 +107,16 @@ def run(ctx):
         bl = dominated(tcp, head)
         return [b for b in sorted(bl) if tcp.blocks[b]['term']['k'] == 'call' and tcp.blocks[b]['term']['callee'].endswith("MutableTcpPacket::<'a>::" + name)]
     sa = arm_sites(dh, 'set_acknowledgement')
-    v = peel(tcp.argv(sa[0], 1)) if len(sa) == 1 else None
+    v = peel(tcp.argv(sa[0], 1)) if tcp.n_sites(sa) == 1 else None
     def is_paylen(x):
         x = peel(x, casts=True)
         return is_call(x, r'\[T\]>::len$') and is_call(peel(x[2][0]), r"TcpPacket<'a> as pnet::packet::Packet>::payload$") and peel(peel(x[2][0])[2][0]) == ('param', 1)
     # seq + payload length (mod 2^32), in any spelling (wrapping_add, 64-bit sum cut to 32 bits, ...)
-    ok = v is not None and is_modsum(tcp.argv(sa[0], 1), [req('get_sequence'), is_paylen], 0)
+    ok = v is not None and all(is_modsum(tcp.argv(b_, 1), [req('get_sequence'), is_paylen], 0) for b_ in sa)
     rep.check(r2, ok, 'data:ack', 'acknowledgement <- %s' % (short(v) if v else '%d sites' % len(sa)), tcp.loc(sa[0]) if sa else tcp.loc(dh))
     ss = arm_sites(dh, 'set_sequence')
-    v = peel(tcp.argv(ss[0], 1)) if len(ss) == 1 else None
-    rep.check(r2, v is not None and req('get_acknowledgement')(v), 'data:seq', 'sequence <- %s' % (short(v) if v else '%d sites' % len(ss)), tcp.loc(ss[0]) if ss else tcp.loc(dh))
+    v = peel(tcp.argv(ss[0], 1)) if tcp.n_sites(ss) == 1 else None
+    rep.check(r2, v is not None and all(req('get_acknowledgement')(peel(tcp.argv(b_, 1))) for b_ in ss), 'data:seq', 'sequence <- %s' % (short(v) if v else '%d sites' % len(ss)), tcp.loc(ss[0]) if ss else tcp.loc(dh))
     sf = arm_sites(dh, 'set_flags')
     consts = {b: const_val(tcp.arg(b, 1)) for b in sf}
     rep.check(r2, sorted(consts.values()) == [ACK, ACK | PSH], 'data:flag-sites', 'set_flags constants on the data arm: %s' % sorted(hex(c) if c is not None else '?' for c in consts.values()), tcp.loc(dh))
@@ -176,11 +176,11 @@ def run(ctx):
     else:
         fh = fin_heads[0]
         sa = arm_sites(fh, 'set_acknowledgement')
-        v = peel(tcp.argv(sa[0], 1)) if len(sa) == 1 else None
+        v = peel(tcp.argv(sa[0], 1)) if tcp.n_sites(sa) == 1 else None
         ok = v is not None and is_modsum(tcp.argv(sa[0], 1), [req('get_sequence')], 1)
         rep.check(r2, ok, 'finack:ack', 'acknowledgement <- %s' % (short(v) if v else None), tcp.loc(sa[0]) if sa else tcp.loc(fh))
         ss = arm_sites(fh, 'set_sequence')
-        v = peel(tcp.argv(ss[0], 1)) if len(ss) == 1 else None
+        v = peel(tcp.argv(ss[0], 1)) if tcp.n_sites(ss) == 1 else None
         rep.check(r2, v is not None and req('get_acknowledgement')(v), 'finack:seq', 'sequence <- %s' % (short(v) if v else None), tcp.loc(ss[0]) if ss else tcp.loc(fh))
         fl = last_set_flags(tcp, fh)
         rep.check(r2, [c for _, c in fl] == [FIN | ACK], 'finack:flags', 'flags %s' % [c for _, c in fl], tcp.loc(fh))
